@@ -256,12 +256,12 @@ def r07f(ctx):
 
 
 def run(ctx):
-    r07a(ctx)
-    r07b(ctx)
-    r07c(ctx)
-    r07d(ctx)
-    r07e(ctx)
-    r07f(ctx)
+    ctx.guard(r07a)
+    ctx.guard(r07b)
+    ctx.guard(r07c)
+    ctx.guard(r07d)
+    ctx.guard(r07e)
+    ctx.guard(r07f)
 
 
 SELFTEST = {
